@@ -250,8 +250,14 @@ fn format_laws(base: &str, base_shape: &str, text: &str, src: &str, a: &cddl::as
   }
   let out_comments = scan_comments(&s1);
   for tag in tags {
-    let was_attached = attached.iter().any(|(_, _, c)| c.contains(tag));
-    let n_out = out_comments.iter().filter(|c| c.contains(tag)).count();
+    let att: Option<&String> = attached.iter().find(|(_, _, c)| c.contains(tag)).map(|(_, _, c)| c);
+    let was_attached = att.is_some();
+    // emitted exactly once AS A COMMENT OF ITS OWN: a comment line whose text is the attached text (a comment glued to
+    // another one is comment text, not a comment)
+    let n_out = match att {
+      Some(c) => out_comments.iter().filter(|o| o.trim_end() == c.trim_end()).count(),
+      None => out_comments.iter().filter(|c| c.contains(tag)).count(),
+    };
     if was_attached && n_out != 1 {
       return Err(viol(
         &format!("{gen}format-duplicates-or-drops-comment"),
@@ -349,6 +355,19 @@ pub fn run(tier: Tier) -> i32 {
         }
       }
     }
+    // two comments in ONE gap: a trailing comment and an own-line comment before the next token (the two slots that
+    // meet between an alternative and the next '/', or an entry and the next one)
+    for &g in &gs {
+      let mut text = String::with_capacity(sp.len() + 24);
+      text.push_str(&sp[..g]);
+      text.push_str(" ;c1\n ;k2\n ");
+      text.push_str(&sp[g + 1..]);
+      a.placements += 1;
+      if let Out::Bad(v) = check(&sp, &base_shape, &text, &["c1", "k2"]) {
+        *a.kinds.entry(v.kind.clone()).or_insert(0) += 1;
+        a.v.push(v);
+      }
+    }
     // deviation bound 2: two comments in all pairs of gaps (small documents; thorough: all documents up to 12 gaps)
     if gs.len() <= tier.pick(6, 12) {
       for x in 0..gs.len() {
@@ -389,7 +408,7 @@ pub fn run(tier: Tier) -> i32 {
   run.rule = "state = (document, comment placement). Documents: every type term of weight <= 3 (thorough 4) over the syntax alphabet, rule headers, multi-rule documents, a sample of the \
     control-operator family and nested choices / operators / group choices inside every bracket kind (two levels), respelled with an explicit space at every position where the grammar allows S (after opening and before closing brackets, after commas and operators), so \
     that every inter-token gap is a character of the text. Placements: every gap x three comment spellings (';c' at the end of the line, two comments on one line, a comment on a line \
-    of its own), one gap at a time; plus all pairs of gaps for documents with <= 6 (thorough 12) gaps. transitions = parse and format of each state. Oracle: the commented text is \
+    of its own), one gap at a time; a trailing plus an own-line comment in the same gap; plus all pairs of gaps for documents with <= 6 (thorough 12) gaps. transitions = parse and format of each state. Oracle: the commented text is \
     accepted and has the comment-free document's shape (rules, choices, entries, operators, literals); each inserted comment is attached to at most one AST node with its text unchanged; \
     the formatted text is accepted, has the same shape, contains every attached comment exactly once as a comment (independent scan for ';' outside literals); the same three laws are then applied to the formatted text as a document of its own (second generation)."
     .into();
@@ -401,7 +420,7 @@ pub fn replay(case: &serde_json::Value) -> Option<Viol> {
   let text = case["cddl"].as_str()?;
   let ast = cddl::cddl_from_str(base, false).ok()?;
   let base_shape = shape::cddl(&ast).shape();
-  let tags: Vec<&str> = ["c1", "c2"].into_iter().filter(|t| text.contains(&format!(";{t}")) || text.contains(&format!("; {t}"))).collect();
+  let tags: Vec<&str> = ["c1", "c2", "k2"].into_iter().filter(|t| text.contains(&format!(";{t}")) || text.contains(&format!("; {t}"))).collect();
   match check(base, &base_shape, text, &tags) {
     Out::Bad(v) => Some(v),
     _ => None,
